@@ -2757,12 +2757,17 @@ void SoPlexBase<R>::clearLPReal()
    assert(_realLP != nullptr);
 
    _realLP->clear();
+   // SPxLPBase::clear() resets the optimization sense; keep it in agreement with the OBJSENSE parameter
+   _realLP->changeSense(intParam(SoPlexBase<R>::OBJSENSE) == SoPlexBase<R>::OBJSENSE_MINIMIZE ?
+                        SPxLPBase<R>::MINIMIZE : SPxLPBase<R>::MAXIMIZE);
    _hasBasis = false;
    _rationalLUSolver.clear();
 
    if(intParam(SoPlexBase<R>::SYNCMODE) == SYNCMODE_AUTO)
    {
       _rationalLP->clear();
+      _rationalLP->changeSense(intParam(SoPlexBase<R>::OBJSENSE) == SoPlexBase<R>::OBJSENSE_MINIMIZE ?
+                               SPxLPRational::MINIMIZE : SPxLPRational::MAXIMIZE);
       _rowTypes.clear();
       _colTypes.clear();
    }
@@ -3686,6 +3691,9 @@ void SoPlexBase<R>::clearLPRational()
    assert(_rationalLP != nullptr);
 
    _rationalLP->clear();
+   // SPxLPBase::clear() resets the optimization sense; keep it in agreement with the OBJSENSE parameter
+   _rationalLP->changeSense(intParam(SoPlexBase<R>::OBJSENSE) == SoPlexBase<R>::OBJSENSE_MINIMIZE ?
+                            SPxLPRational::MINIMIZE : SPxLPRational::MAXIMIZE);
    _rationalLUSolver.clear();
    _rowTypes.clear();
    _colTypes.clear();
@@ -3693,6 +3701,8 @@ void SoPlexBase<R>::clearLPRational()
    if(intParam(SoPlexBase<R>::SYNCMODE) == SYNCMODE_AUTO)
    {
       _realLP->clear();
+      _realLP->changeSense(intParam(SoPlexBase<R>::OBJSENSE) == SoPlexBase<R>::OBJSENSE_MINIMIZE ?
+                           SPxLPBase<R>::MINIMIZE : SPxLPBase<R>::MAXIMIZE);
       _hasBasis = false;
    }
 
